@@ -118,7 +118,9 @@ def main():
                              "errors": [l for l in dout.split("\n") if l.startswith("error:")][:8]})
     aud = {"ok": False, "theorems": [], "problems": ["not run"]}
     if proof_ok:
-        aud = vf.audit(pid, allow_bv_decide=getattr(prop, "ALLOW_BV", False))
+        extra = prop.gen_theorems() if hasattr(prop, "gen_theorems") else []
+        aud = vf.audit(pid, allow_bv_decide=getattr(prop, "ALLOW_BV", False), extra_theorems=extra,
+                       extra_imports=getattr(prop, "GEN_IMPORTS", []))
         if not aud["ok"]:
             problems.append({"what": "axiom / token audit", "errors": aud["problems"][:8]})
     thms = aud["theorems"]
@@ -219,7 +221,8 @@ def main():
         "obligations": max(obligations, 1), "discharged": discharged,
         "checker_cmd": "cd lean && lake build Ufw.Props.%s && lake env lean Ufw/Audit/%s.lean" % (pid, pid),
         "trusted_base": ["Lean 4 kernel"] + ["axiom " + a for a in axioms] + getattr(prop, "TRUSTED", []),
-        "theorems": thms, "generated_obligations": gen_obl, "translation_tie": tie,
+        "theorems": thms if len(thms) <= 60 else thms[:40] + [{"name": "... %d more (all audited)" % (len(thms) - 40), "axioms": []}],
+        "generated_obligations": gen_obl, "translation_tie": tie,
         "evaluations": sum(len(c.ops) for c in cases), "cases": len(cases),
         "distinct_nontrivial": len(distinct), "rule": prop.RULE, "samples": samples,
         "exhaustive": bool(getattr(prop, "EXHAUSTIVE", {}).get(args.tier, False)),
